@@ -132,11 +132,11 @@ Section ValidSpec.
   (* the same with the AS of the key not looked at (what /repo does today) *)
   Definition hop_valid_any_as := hop_valid_gen (fun _ _ => True).
 
-  Definition path_valid (table : list router_key) (u : update) : Prop :=
+  Definition path_valid_gen (as_ok : router_key -> sps -> Prop)
+             (table : list router_key) (u : update) : Prop :=
     u_secs u <> [] /\ length (u_secs u) = length (u_sigs u) /\
-    forall k, (k < length (u_sigs u))%nat -> hop_valid table u k.
+    forall k, (k < length (u_sigs u))%nat -> hop_valid_gen as_ok table u k.
 
-  Definition path_valid_any_as (table : list router_key) (u : update) : Prop :=
-    u_secs u <> [] /\ length (u_secs u) = length (u_sigs u) /\
-    forall k, (k < length (u_sigs u))%nat -> hop_valid_any_as table u k.
+  Definition path_valid := path_valid_gen (fun key sec => rk_asn key = sp_asn sec).
+  Definition path_valid_any_as := path_valid_gen (fun _ _ => True).
 End ValidSpec.
